@@ -463,14 +463,26 @@ def reportedAt (fmt : Fmt) (strLineno : Nat) (doc : List Char) (source obj : Loc
 
 /-! ### `obj.__doc__ = "…"` (`astbuilder._handleDocstringUpdate`)
 
-The assigned text becomes `obj.docstring` (cleaned like a literal) and `parsed_docstring` is reset;
-`setDocstring` is **not** called: `docstring_lineno` stays what the definition's own docstring
-literal gave (0 when there was none) and `linenumber` stays the line of the definition. -/
+The assigned text becomes `obj.docstring` (cleaned like a literal) and `parsed_docstring` is reset.
+Since pydoctor af7dc4e `docstring_lineno` is taken from the assigned expression:
+`extract_docstring_linenum(expr)` when it is a string constant (on line `sl`, value `v`), else
+`getattr(expr, 'lineno', lineno)`.  `linenumber` stays the line of the definition. -/
 
-def Obj.assignDoc (o : Obj) : Obj := o
+def Obj.assignDoc (o : Obj) (sl : Nat) (v : List Char) : Obj :=
+  { o with docstringLineno := (extractLinenum sl v : Nat) }
 
-/-- line reported for a problem `off` lines into the assigned text -/
-def reportAfterDocAssignment (o : Obj) (sec : Sec) (off : Int) : Line := report o.assignDoc sec off
+/-- the assigned expression is not a constant (e.g. `"a" + "b"`): its `lineno` -/
+def Obj.assignDocExpr (o : Obj) (exprLineno : Int) : Obj := { o with docstringLineno := exprLineno }
+
+/-- line reported for a problem `off` lines into the text assigned by the literal on line `sl` -/
+def reportAfterDocAssignment (o : Obj) (sl : Nat) (v : List Char) (sec : Sec) (off : Int) : Line :=
+  report (o.assignDoc sl v) sec off
+
+/-- before af7dc4e: `docstring_lineno` was left as the definition's own docstring literal gave it
+(0 when there was none) -/
+def Obj.assignDocOld (o : Obj) : Obj := o
+
+def reportAfterDocAssignmentOld (o : Obj) (sec : Sec) (off : Int) : Line := report o.assignDocOld sec off
 
 /-! ### objects moved by a re-export
 
